@@ -48,6 +48,8 @@ def gen_plan(rng, tier):
                   "table": rng.choice(["t1", "t2"]), "gm_first": rng.random() < 0.5}
             if rng.random() < 0.18 and tr in ("file", "obs_dump", "corr_dump", "dict", "pickle", "obs_pickle"):
                 op["fault"] = {"frac": round(rng.random(), 4), "err": rng.choice(["ENOSPC", "EIO"])}
+            elif rng.random() < 0.06 and tr in ("file", "obs_dump", "corr_dump", "dict"):
+                op["intr"] = round(rng.random(), 4)        # the export is interrupted (Ctrl-C) at a pyerrors line event
             ops.append(op)
         elif r < 0.74:
             ops.append({"op": "reimport", "name": rng.randrange(len(NAMES)), "where": rng.choice(["session", "partner"])})
@@ -228,9 +230,13 @@ def execute(plan, ctx):
                 ident.user, ident.host, ident.plat = op["user"], op["host"], op["plat"]
                 continue
             if op["op"] == "reimport":
-                m = files.get(op["name"])
-                if m is None or not m["durable"]:
+                paths = sorted(p_ for p_, m_ in files.items() if m_.get("durable"))
+                if not paths:
                     continue
+                m = files[paths[op["name"] % len(paths)]]
+                if m["transport"] == "sql":
+                    continue
+                ctx.probe("reimport_of_older_file")
                 verify(ctx, pe, partner, m, op["where"], "reimport")
                 continue
             do_export(ctx, pe, pd, op, plan, structs, d, clock, faults, files, sql_model, partner)
@@ -346,7 +352,7 @@ def do_export(ctx, pe, pd, op, plan, structs, d, clock, faults, files, sql_model
     if tr == "sql":
         op = dict(op, gz=(op["table"] == "t1"))               # one serialisation per table (mixing gz and plain rows is a caller error)
         comp = tr + ("/gz" if op["gz"] else "")
-    key = (tr if tr in ("sql", "csv", "pickle", "obs_pickle") else "json", op["name"])
+    key = guess_path(tr, fname, op)           # the model of the disk is kept per path
     prev = files.get(key)
     if tr == "sql":
         tkey = (fname, op["table"])
@@ -395,6 +401,61 @@ def do_export(ctx, pe, pd, op, plan, structs, d, clock, faults, files, sql_model
         except Exception:
             return
         faults.arm(int(fault["frac"] * size), fault["err"])
+    if op.get("intr") is not None and not fault:
+        st, v, nl = objs.run_interruptible(lambda: run_export(os.path.join(d, "probe_" + base.replace(".", "_"))), None)
+        if st == "done" and nl > 2:
+            try:
+                os.unlink(v[0])
+            except OSError:
+                pass
+            k = 1 + int(op["intr"] * (nl - 1))
+            st, v, _ = objs.run_interruptible(lambda: run_export(fname), k)
+            if st == "interrupted":
+                ctx.fault("interrupt_at_line")
+                path = guess_path(tr, fname, op)
+                gzf = op["gz"] if tr in ("file", "dict") else True
+                m = {"transport": tr, "path": path, "gz": gzf, "expect": exp, "durable": False, "frame": False, "objs": None, "comp": comp, "disc": disc}
+                if os.path.exists(path):
+                    try:
+                        got = gen.canon(load(pe, m))
+                        dd = gen.diff(exp, got)
+                        # an export interrupted before it opened the file leaves the previous archive of that name untouched
+                        old_ok = False
+                        if prev is not None and prev.get("durable") and not prev.get("frame") and prev["path"] == path:
+                            try:
+                                old_ok = gen.diff(without_known_corr_tag(prev["expect"]), gen.canon(load(pe, prev))) is None
+                            except Exception:
+                                old_ok = False
+                        if dd and "Corr tag 'None' vs None" not in dd and not old_ok:
+                            ctx.violation("c11.torn_archive_loaded", comp, "interrupt", "archive left by an interrupted export imported as something else: %s" % dd)
+                        elif old_ok:
+                            ctx.probe("interrupted_before_open_old_archive_intact")
+                            ctx.sig(comp, disc, "interrupt_before_open")
+                            return          # the model keeps the previous entry
+                        else:
+                            ctx.probe("torn_archive_complete_and_equal")
+                    except Exception:
+                        ctx.probe("torn_archive_rejected")
+                files[key] = dict(m, durable=False, after_fault=True)
+                ctx.sig(comp, disc, "interrupt")
+                return
+            if st == "raised":
+                ctx.violation("c11.no_result", comp, disc, "export raised %s" % type(v).__name__)
+                return
+            path, gzf = v
+            raised = None
+            fired = False
+            fault = None
+            # fall through to the normal verification with the completed export
+            faults.last = None
+            faults.armed = None
+            if prev is not None:
+                hist = "overwrite_after_fault" if prev.get("after_fault") else "overwrite"
+            m = {"transport": tr, "path": path, "gz": gzf, "expect": exp, "durable": True, "frame": False, "objs": obj, "size": os.path.getsize(path), "comp": comp, "disc": disc}
+            files[key] = m
+            verify(ctx, pe, partner, m, op["where"], hist)
+            ctx.sig(comp, disc, hist, op["where"], "not_interrupted")
+            return
     try:
         path, gzf = run_export(fname)
         raised = None
@@ -549,7 +610,7 @@ def verify(ctx, pe, partner, m, where, hist):
     ctx.probe("roundtrip_ok")
     if back is not None and m.get("objs") is not None and not m.get("frame"):
         analysis_equal(ctx, comp, disc, m["objs"], back)
-        if exact:
+        if exact and hist != "reimport":        # later operations may re-analyse the in-memory objects; the file keeps the analysis of export time
             for x, y in zip(gen.all_obs(m["objs"]), gen.all_obs(back)):
                 for k in objs.E_KEYS + ["_dvalue", "ddvalue"]:
                     if hasattr(x, k) != hasattr(y, k) or (hasattr(x, k) and kernel_digest(getattr(x, k)) != kernel_digest(getattr(y, k))):
